@@ -62,8 +62,6 @@ class Addr:
         # if we already have expiry times, etc then we want to
         # properly delay our timeout
 
-        oldexpires = self.expires
-
         if gmtexpires.upper() == 'NEVER':
             # FIXME can I just select a date 100 years in the future instead?
             self.expires = None
@@ -71,23 +69,26 @@ class Addr:
             self.expires = datetime.datetime.strptime(gmtexpires, fmt)
         self.created = datetime.datetime.utcnow()
 
+        # the latest update decides when (if ever) we expire, so any
+        # timeout from an earlier update is replaced
+        self._cancel_expiry()
         if self.expires is not None:
-            if oldexpires is None:
-                if self.expires <= self.created:
-                    diff = datetime.timedelta(seconds=0)
-                else:
-                    diff = self.expires - self.created
-                self.expiry = self.map.scheduler.callLater(diff.seconds,
-                                                           self._expire)
-
+            if self.expires <= self.created:
+                diff = 0
             else:
-                diff = self.expires - oldexpires
-                self.expiry.delay(diff.seconds)
+                diff = (self.expires - self.created).total_seconds()
+            self.expiry = self.map.scheduler.callLater(diff, self._expire)
+
+    def _cancel_expiry(self):
+        if self.expiry is not None and self.expiry.active():
+            self.expiry.cancel()
+        self.expiry = None
 
     def _expire(self):
         """
         callback done via callLater
         """
+        self._cancel_expiry()
         del self.map.addr[self.name]
         self.map.notify("addrmap_expired", *[self.name], **{})
 
